@@ -25,7 +25,7 @@ CLANG_FLAGS = ['-std=c++17', '-O1', '-fno-access-control', '-fno-vectorize', '-f
                '-fno-exceptions', '-fno-rtti', '-S', '-emit-llvm', '-Xclang', '-disable-llvm-passes', '-w']
 OPT_FLAGS = ['-O1', '-S', '--vectorize-loops=false', '--vectorize-slp=false', '--disable-loop-unrolling']
 GXX_FLAGS = ['-std=c++17', '-O1', '-g', '-fno-access-control', '-w', '-rdynamic', '-pthread']
-CBMC_BASE = ['--unwinding-assertions', '--undefined-shift-check',
+CBMC_BASE = ['--unwinding-assertions', '--undefined-shift-check', '--object-bits', '12',
              '--drop-unused-functions', '--no-malloc-may-fail', '--trace', '--json-ui', '--verbosity', '8']
 PRINT_LOCK = threading.Lock()
 
